@@ -3,10 +3,10 @@
 from __future__ import annotations
 
 import ast
-from typing import Dict, List, Optional
+from typing import Dict, List, Optional, Tuple
 
 from fsa.consts import fold_enum, folder
-from fsa.match import affine, dotted, is_call, is_const, method_call, kwarg
+from fsa.match import Unknown, affine, atoms_equal, dotted, is_call, is_const, method_call, kwarg, nnf_atoms
 from fsa.source import AnchorMissing, Unsupported, iter_own_nodes, stmt_key, text
 from rules.common import Fn, reordering_sites, tainted_names
 from rules.solver_common import expr
@@ -382,7 +382,8 @@ def _template_call(fi, fields) -> ast.Call:
 def _check_name_list(R, q, nm, ty, v, sym_param, where) -> str:
     """`v` (canonical value) must be [s.name for s in symbols if s.type == Type.<ty>]."""
     from fsa.match import atoms_equal, nnf_atoms
-    lc = v
+    from fsa.gated import canon as _canon
+    lc = _canon(v, fuse=True)
     if not (isinstance(lc, ast.ListComp) and len(lc.generators) == 1):
         raise Unsupported(f'{q}: value of `{nm}` is `{text(v)[:70]}`, not a comprehension')
     g = lc.generators[0]
@@ -399,6 +400,25 @@ def _check_name_list(R, q, nm, ty, v, sym_param, where) -> str:
 def _check_lag_spec(R, q, nm, agg, floor, v, sym_param, where) -> None:
     """`v` must be  max(abs(<agg>(s.<nm> for s in NIS)) if NIS else 0, <floor>) if <nm> is None else <nm>."""
     other = 'max' if agg == 'min' else 'min'
+    import copy as _copy
+    # two spellings of one value are read the same: `x if nm is not None else c` as `c if nm is None else x`, and
+    # `f(agg(gen, default=0))` as `f(agg(gen)) if <the iterable> else f(0)` (f = abs: 0)
+    if isinstance(v, ast.IfExp) and text(v.test) == f'{nm} is not None':
+        v = ast.IfExp(test=ast.parse(f'{nm} is None', mode='eval').body, body=v.orelse, orelse=v.body)
+
+    class _Default(ast.NodeTransformer):
+        def visit_Call(self, node):
+            self.generic_visit(node)
+            if is_call(node, 'abs') and len(node.args) == 1 and is_call(node.args[0], 'min', 'max') and len(node.args[0].args) == 1 \
+                    and isinstance(node.args[0].args[0], (ast.GeneratorExp, ast.ListComp)) and len(node.args[0].keywords) == 1 \
+                    and node.args[0].keywords[0].arg == 'default' and is_const(node.args[0].keywords[0].value, 0) \
+                    and len(node.args[0].args[0].generators) == 1 and not node.args[0].args[0].generators[0].ifs:
+                inner_ = _copy.deepcopy(node)
+                inner_.args[0].keywords = []
+                return ast.IfExp(test=_copy.deepcopy(node.args[0].args[0].generators[0].iter), body=inner_, orelse=ast.Constant(value=0))
+            return node
+
+    v = ast.fix_missing_locations(_Default().visit(_copy.deepcopy(v)))
     if not (isinstance(v, ast.IfExp) and text(v.test) == f'{nm} is None'):
         if text(v) == nm:
             R.violation(q, f'{nm}-aggregate', f'`{nm}` is never computed from the symbols (no `{nm} is None` branch)', where=where)
@@ -488,11 +508,11 @@ def r5_definition(R) -> None:
     q = f'{P}.build_model_definition'
     f = Fn(R, q)
     sym_param = (f.fi.params() + ['symbols'])[0]
-    se = f.symexec()
+    se = f.symexec(deep=True)
     call = _template_call(f.fi, list(FIELDS) + ['lags', 'leads', 'equations'])
     st = _stmt_of(f.fi.node, se, call)
     where = f'{f.fi.module.relpath}:{call.lineno}'
-    vals = {k.arg: canon(se.value(st, k.value)) for k in call.keywords if k.arg}
+    vals = {k.arg: canon(f.groupby_read(canon(se.value(st, k.value)))) for k in call.keywords if k.arg}
     py_forms = {}
     for nm, ty in FIELDS.items():
         py_forms[nm] = _check_name_list(R, q, nm, ty, vals[nm], sym_param, where)
@@ -536,12 +556,12 @@ def r5_definition(R) -> None:
     # Fortran twin: the same name lists (in the same order) and the same lag/lead lengths
     ft = Fn(R, 'fsic.fortran.build_fortran_definition')
     fq = ft.q
-    fse = ft.symexec()
+    fse = ft.symexec(deep=True)
     fsym = (ft.fi.params() + ['symbols'])[0]
     fcall = _template_call(ft.fi, list(FIELDS) + ['lags', 'leads', 'equations'])
     fst = _stmt_of(ft.fi.node, fse, fcall)
     fwhere = f'{ft.fi.module.relpath}:{fcall.lineno}'
-    fvals = {k.arg: fse.value(fst, k.value) for k in fcall.keywords if k.arg}
+    fvals = {k.arg: ft.groupby_read(canon(fse.value(fst, k.value))) for k in fcall.keywords if k.arg}
     # the same specification is checked on the Fortran side (not a textual comparison: either side may be spelled differently)
     for nm, agg, floor in (('lags', 'min', 'min_lags'), ('leads', 'max', 'min_leads')):
         _check_lag_spec(R, fq, nm, agg, floor, canon(fvals[nm]), fsym, fwhere)
@@ -567,29 +587,104 @@ def r5_definition(R) -> None:
                 f'variables are numbered over `{[g_[:40] for g_ in got]}`', where=f'{ft.fi.module.relpath}:{chains[0].lineno}')
 
 
+def result_dict(f) -> Optional[str]:
+    """The local dictionary whose values a parser function returns (`symbols`), by role."""
+    res = set()
+    for r in f.returns():
+        if r.ast.value is None:
+            continue
+        for x in ast.walk(r.ast.value):
+            if method_call(x, 'values') and isinstance(x.func.value, ast.Name):
+                res.add(x.func.value.id)
+    return sorted(res)[0] if len(res) == 1 else None
+
+
+def classify_store(f, n, D: str) -> Tuple[str, str]:
+    """A store `D[k] = v` of a parser function: ('merge' | 'insert' | 'overwrite' | 'unknown', key text)."""
+    t = n.ast.targets[0]
+    ke = f.etext(n.id, t.slice, stop=(D,))
+    v = f.expand(n.id, n.ast.value, stop=(D,))
+    present = f.holds(n.id, f'{text(t.slice)} in {D}', True) or f.xholds(n.id, f'{ke} in {D}', True, stop=(D,))
+    absent = f.holds(n.id, f'{text(t.slice)} in {D}', False) or f.xholds(n.id, f'{ke} in {D}', False, stop=(D,))
+    for x in ast.walk(v):
+        if method_call(x, 'combine') and len(x.args) == 1:
+            r = x.func.value
+            if method_call(r, 'get') and text(r.func.value) == D and len(r.args) == 2 and text(r.args[0]) == ke and text(r.args[1]) == text(x.args[0]):
+                return ('merge', ke)
+            if isinstance(r, ast.Subscript) and text(r.value) == D and text(r.slice) == ke and present:
+                return ('merge', ke)
+            return ('unknown', ke)
+    if any(isinstance(y, ast.Name) and y.id == D for y in ast.walk(v)):
+        return ('unknown', ke)
+    return ('insert' if absent else 'overwrite', ke)
+
+
 def r6_first_appearance(R) -> None:
     for q in (f'{P}.parse_model', f'{P}.parse_equation'):
         f = Fn(R, q)
+        D = result_dict(f)
+        if D is None:
+            raise Unknown(f'{q}: the dictionary whose values are returned was not found')
         merges = [n for n in f.cfg.nodes if n.kind == 'stmt' and isinstance(n.ast, ast.Assign) and isinstance(n.ast.targets[0], ast.Subscript)
-                  and text(n.ast.targets[0].value) == 'symbols']
-        if not R.require(q, len(merges), 'symbols[name] = symbols.get(name, symbol).combine(symbol)', fi=f.fi, pred=lambda x: method_call(x, 'combine')):
+                  and text(n.ast.targets[0].value) == D]
+        if not R.require(q, len(merges), f'{D}[name] = {D}.get(name, symbol).combine(symbol)', fi=f.fi, pred=lambda x: method_call(x, 'combine')):
             continue
+        n_merge = 0
         for n in merges:
-            v = n.ast.value
-            key = text(n.ast.targets[0].slice)
-            if method_call(v, 'combine'):
-                ok = method_call(v.func.value, 'get') and text(v.func.value.func.value) == 'symbols' \
-                    and [text(a) for a in v.func.value.args] == [key, text(v.args[0])]
-                R.check(ok, q, 'merge:' + text(v), 'a repeated name is merged into its first entry (position of first appearance kept)',
-                        f'`{text(n.ast)}` is not symbols.get({key}, s).combine(s)', where=f.where(n))
-        rets = [r for r in f.returns() if r.ast.value is not None and 'symbols' in text(r.ast.value)]
+            kind, ke = classify_store(f, n, D)
+            if kind == 'merge':
+                n_merge += 1
+                R.ok(q, f'`{text(n.ast)[:70]}`: a repeated name is merged into its first entry (position of first appearance kept)')
+            elif kind == 'insert':
+                R.ok(q, f'`{text(n.ast)[:70]}`: made only when the name has no entry yet (first appearance)')
+            elif kind == 'unknown' and any(method_call(x, 'combine') for x in ast.walk(n.ast.value)):
+                R.violation(q, 'merge:' + text(n.ast.value), f'`{text(n.ast)}` is not {D}.get({ke}, s).combine(s): the symbol is not combined with the entry of its own name',
+                            where=f.where(n))
+            # a plain overwrite keeps the position of first appearance (dict semantics); what it loses is C13.R5c's business
+        R.expect(q, n_merge, 1, 'stores that merge a repeated name into its entry')
+        # removal or reordering of entries
+        for n in f.cfg.nodes:
+            if n.ast is None or n.kind != 'stmt':
+                continue
+            for x in ast.walk(n.ast):
+                if (isinstance(x, ast.Delete) and any(isinstance(t_, ast.Subscript) and text(t_.value) == D for t_ in x.targets)) or \
+                        (method_call(x, 'pop', 'popitem', 'move_to_end', 'clear') and text(x.func.value) == D):
+                    R.violation(q, 'entry-moved:' + text(x)[:50], f'`{text(x)[:60]}` removes or moves an entry of `{D}`: the position of first appearance is lost',
+                                where=f.where(n))
+        rets = [r for r in f.returns() if r.ast.value is not None and any(isinstance(x, ast.Name) and x.id == D for x in ast.walk(r.ast.value))]
         for r in rets:
             tv = text(r.ast.value)
-            R.check(tv in ('list(symbols.values()) + verbatim', 'list(symbols.values())'), q, 'return:' + tv, 'symbols are returned in insertion order',
-                    f'`return {tv}` does not return the symbols in insertion order', where=f.where(r))
-        ds = [n for n in f.assigns_to('symbols')]
+            pieces = []
+            def flat(e):
+                if isinstance(e, ast.BinOp) and isinstance(e.op, ast.Add):
+                    flat(e.left); flat(e.right)
+                else:
+                    pieces.append(e)
+            flat(r.ast.value)
+            over_d = []
+            okp = True
+            for p_ in pieces:
+                if is_call(p_, 'list') and len(p_.args) == 1 and text(p_.args[0]) == f'{D}.values()':
+                    over_d.append(None)
+                elif isinstance(p_, ast.ListComp) and len(p_.generators) == 1 and text(p_.generators[0].iter) == f'{D}.values()' \
+                        and text(p_.elt) == text(p_.generators[0].target) and len(p_.generators[0].ifs) == 1:
+                    over_d.append(nnf_atoms(p_.generators[0].ifs[0], True))
+                elif isinstance(p_, ast.Name) and p_.id != D:
+                    continue
+                else:
+                    okp = False
+            if not okp:
+                R.violation(q, 'return:' + tv, f'`return {tv[:90]}` does not return the symbols in insertion order', where=f.where(r))
+                continue
+            whole = [o for o in over_d if o is None]
+            parts = [o for o in over_d if o is not None]
+            exact = (len(whole) == 1 and not parts) or (not whole and len(parts) == 2 and len(parts[0]) == 1 and len(parts[1]) == 1
+                                                     and atoms_equal(parts[0][0][0], parts[1][0][0]) and parts[0][0][1] != parts[1][0][1])
+            R.check(exact, q, 'return:' + tv, 'symbols are returned in insertion order, each once',
+                    f'`return {tv[:90]}` does not return each symbol of `{D}` exactly once', where=f.where(r))
+        ds = [n for n in f.assigns_to(D)]
         ok = all(isinstance(d.ast.value, ast.Dict) or text(d.ast.value) in ('{}', 'dict()', 'OrderedDict()', 'collections.OrderedDict()') for d in ds if d.ast.value is not None)
-        R.check(ok and ds, q, 'symbols-dict', 'symbols accumulate in an insertion-ordered dict', '`symbols` is not an (ordered) dict', where=f.fi.where)
+        R.check(ok and ds, q, 'symbols-dict', 'symbols accumulate in an insertion-ordered dict', f'`{D}` is not an (ordered) dict', where=f.fi.where)
     # every term of a statement goes through the merge (type-compatibility check): only verbatim terms and
     # function symbols may be skipped
     pe = Fn(R, f'{P}.parse_equation')
@@ -609,9 +704,33 @@ def r6_first_appearance(R) -> None:
     l1 = [n for n in loops if 'split_equations_iter(model)' in text(n.ast.iter)]
     R.check(bool(l1) and text(l1[0].ast.iter) in ('enumerate(split_equations_iter(model))', 'split_equations_iter(model)'), f.q, 'statement-order',
             'statements are parsed in script order', 'parse_model does not iterate split_equations_iter(model) directly', where=f.fi.where)
-    l2 = [n for n in loops if 'symbols_by_equation' in text(n.ast.iter)]
-    R.check(bool(l2) and text(l2[0].ast.iter) in ('itertools.chain(*symbols_by_equation)', 'itertools.chain.from_iterable(symbols_by_equation)'), f.q, 'merge-order',
-            'per-statement symbol lists are merged in statement order', 'the merge loop does not iterate chain(*symbols_by_equation)', where=f.fi.where)
+    # the merge loop visits the per-statement symbol lists in statement order
+    D = result_dict(f)
+    per_stmt = {text(x.func.value) for n in f.cfg.nodes if n.ast is not None and n.kind == 'stmt' and l1 and l1[0].id in n.loops
+                for x in ast.walk(n.ast) if method_call(x, 'append') and isinstance(x.func.value, ast.Name)}
+    stores = [n for n in f.cfg.nodes if n.kind == 'stmt' and isinstance(n.ast, ast.Assign) and isinstance(n.ast.targets[0], ast.Subscript)
+              and text(n.ast.targets[0].value) == D and n.loops]
+
+    def strip_enum(e):
+        return e.args[0] if is_call(e, 'enumerate') and e.args else e
+
+    for n in stores:
+        inner = f.cfg.nodes[n.loops[-1]]
+        it = strip_enum(inner.ast.iter)
+        src = None
+        if is_call(it, 'itertools.chain', 'chain') and len(it.args) == 1 and isinstance(it.args[0], ast.Starred):
+            src = text(it.args[0].value)
+        elif is_call(it, 'itertools.chain.from_iterable', 'chain.from_iterable') and len(it.args) == 1:
+            src = text(it.args[0])
+        elif isinstance(it, ast.Name) and len(n.loops) >= 2:
+            outer = f.cfg.nodes[n.loops[-2]]
+            if it.id in {x.id for x in ast.walk(outer.ast.target) if isinstance(x, ast.Name)}:
+                src = text(strip_enum(outer.ast.iter))
+        if src is None:
+            raise Unknown(f'{f.q}: the merge loop iterates `{text(inner.ast.iter)[:60]}`; not a chain over the per-statement lists this rule can read')
+        R.check(src in per_stmt, f.q, 'merge-order:' + src, 'per-statement symbol lists are merged in statement order',
+                f'the merge loop iterates `{src}`, which is not the list the statement loop appends to ({sorted(per_stmt)})', where=f.where(inner))
+    R.expect(f.q, len(stores), 1, 'stores of the merge loop')
     for q in (f'{P}.parse_model', f'{P}.parse_equation'):
         fi = R.repo.func(q)
         bad = reordering_sites(fi.node, tainted_names(fi.node, ['model', 'terms', 'equation']))
